@@ -1,23 +1,54 @@
+/* defer_rcu scenario: real src/urcu-defer-impl.h (inside src/urcu.c, memb flavor) under the controlled scheduler, with its background reclaimer thread
+   (created by the library through the interposed pthread_create and scheduled like any other thread).
+   usage: scen_defer PROG SCHED ; ops per thread:
+     R rcu_defer_register_thread   U rcu_defer_unregister_thread   D<i> defer_rcu(fn, object i)   B rcu_defer_barrier()
+     W wait, without any further API call, until every call this thread queued so far has been made (the background reclaimer must make them)
+     ( ) read-side section
+   The deferred call is recorded instead of executed (hook URCU_VERIF_DEFER_CALL); the ring is small (hook URCU_VERIF_DEFER_QUEUE_SIZE). */
+#include <stdio.h>
+#include <stdlib.h>
+static void record_call(void (*f)(void *), void *p);
+#define URCU_VERIF_DEFER_CALL(f, p) record_call(f, p)
 #define RCU_MEMBARRIER
-#include "urcu_a2_d.c"
+#include "/repo/src/urcu.c"
 #include "sched.h"
-static int seq[4][64], nseq[4]; static int expect[4];
-static char tn[8][8];
-static void treg(int t){ sprintf(tn[t],"rd%d",t); vs_region(&URCU_TLS(rcu_reader),sizeof(struct urcu_reader),tn[t]); }
-static void f1(void *p){ unsigned long v=(unsigned long)p; int t=v>>8, k=v&0xff; if(k!=expect[t]) printf("VIOLATION defer order thread %d got %d expected %d\n",t,k,expect[t]); expect[t]++; }
-static void f2(void *p){ f1(p); }
-static void user(int t){ treg(t); rcu_register_thread(); rcu_defer_register_thread();
-	for(int i=0;i<14;i++){ defer_rcu((i%5<3)?f1:f2,(void*)(unsigned long)((t<<8)|i)); }
-	rcu_defer_barrier();
-	if(expect[t]!=14) printf("VIOLATION defer barrier: thread %d only %d ran\n",t,expect[t]);
-	rcu_defer_unregister_thread();
-#ifdef REREG
-	rcu_defer_register_thread(); defer_rcu(f1,(void*)(unsigned long)((t<<8)|14)); rcu_defer_unregister_thread();
-	if(expect[t]!=15) printf("VIOLATION defer after re-register: thread %d only %d ran\n",t,expect[t]);
-#endif
-	rcu_unregister_thread(); }
-static void reader(int t){ treg(t); rcu_register_thread(); for(int i=0;i<3;i++){ rcu_read_lock(); rcu_read_unlock(); } rcu_unregister_thread(); }
-int main(int argc,char**argv){ setvbuf(stdout,0,_IOLBF,0);
-	vs_region(&rcu_gp.ctr,8,"gp.ctr"); vs_region(&rcu_gp.futex,4,"gp.futex"); vs_region(&defer_thread_futex,4,"dfutex");
-	vs_spawn(user); vs_spawn(user); vs_spawn(reader);
-	vs_run(argc>1?argv[1]:""); fflush(stdout); _exit(0); }
+#include <string.h>
+#define MAXTH 6
+#define NO 16
+static unsigned long ran[NO]; static int owner[NO]; static unsigned long queued[MAXTH], done_[MAXTH];
+static char *prog[MAXTH]; static int nprog; static char tn[MAXTH+4][8];
+static void fn_a(void *p){ (void)p; } static void fn_b(void *p){ (void)p; }
+static void record_call(void (*f)(void *), void *p){ long i=(long)p>>4; vs_call("dcall",(unsigned long)i); vs_note("fn %c arg %lx",f==fn_a?'a':f==fn_b?'b':'?',(unsigned long)p);
+	if(i>=0&&i<NO){ ran[i]++; CMM_STORE_SHARED(done_[owner[i]],done_[owner[i]]+1); } vs_ret("dcall",(unsigned long)i); }
+static void body(int t){
+	sprintf(tn[t],"rd%d",t); vs_region(&URCU_TLS(rcu_reader).ctr,sizeof(unsigned long),tn[t]);
+	vs_quiet_begin(); rcu_register_thread(); vs_quiet_end();
+	int depth=0;
+	for(char *p=prog[t]; *p; p++){
+		switch(*p){
+		case 'R': vs_call("dreg",0); rcu_defer_register_thread(); vs_ret("dreg",0); break;
+		case 'U': vs_call("dunreg",0); rcu_defer_unregister_thread(); vs_ret("dunreg",0); break;
+		case 'D': { int i=p[1]-'a'>=0&&p[1]>='a'? 10+p[1]-'a' : p[1]-'0'; p++; owner[i]=t; queued[t]++;
+			/* argument: object index in the high bits, low bit patterns that exercise the encoding (odd = looks like a function pointer) */
+			void *arg=(void*)(((long)i<<4)|(i%3==1?1:0)); vs_call("defer",i); defer_rcu((i&4)?fn_b:fn_a,arg); vs_ret("defer",i); break; }
+		case 'B': vs_call("dbarrier",0); rcu_defer_barrier(); vs_ret("dbarrier",0); break;
+		case 'W': vs_call("dwait",queued[t]); while(CMM_LOAD_SHARED(done_[t])<queued[t]) caa_cpu_relax(); vs_ret("dwait",0); break;
+		case '(': vs_call("lock",depth); rcu_read_lock(); vs_ret("lock",0); depth++; break;
+		case ')': vs_call("unlock",depth); rcu_read_unlock(); vs_ret("unlock",0); depth--; break;
+		}
+	}
+	vs_quiet_begin(); rcu_unregister_thread(); vs_quiet_end();
+}
+int main(int argc,char**argv){
+	static char obuf[1<<22]; setvbuf(stdout,obuf,_IOFBF,sizeof obuf);
+	if(argc<3) return 9;
+	for(char *s=strtok(argv[1],"/"); s && nprog<MAXTH; s=strtok(0,"/")) prog[nprog++]=s;
+	rcu_init();
+	vs_region(&rcu_gp.ctr,8,"gp.ctr"); vs_region(&rcu_gp.futex,4,"gp.futex"); vs_region(&rcu_gp_lock,sizeof rcu_gp_lock,"gp_lock"); vs_region(&rcu_registry_lock,sizeof rcu_registry_lock,"reg_lock");
+	vs_region(&gp_waiters,sizeof gp_waiters,"waiters"); vs_region(&rcu_defer_mutex,sizeof rcu_defer_mutex,"dmutex"); vs_region(&defer_thread_mutex,sizeof defer_thread_mutex,"dtmutex");
+	vs_region(&defer_thread_futex,4,"dfutex"); vs_region(&defer_thread_stop,4,"dstop"); vs_region(done_,sizeof done_,"done");
+	printf("- size %d\n",(int)DEFER_QUEUE_SIZE);
+	for(int i=0;i<nprog;i++) vs_spawn(body);
+	vs_run(argv[2]);
+	for(int i=0;i<NO;i++) if(ran[i]) printf("- ran %d %lu\n", i, ran[i]);
+	fflush(stdout); _exit(0); }
